@@ -3,12 +3,17 @@ package c17
 
 import (
 	"fmt"
+	"os"
 	"sort"
+	"strings"
 	"testing"
 
 	"github.com/gdamore/tcell/v2"
+	"github.com/gdamore/tcell/v2/terminfo"
 	"pgregory.net/rapid"
 
+	"verifharness/internal/faketty"
+	"verifharness/internal/vt"
 	"verifharness/internal/csets"
 	"verifharness/internal/pbt"
 	"verifharness/internal/shadow"
@@ -417,13 +422,128 @@ func fbNonTrivial(c FbCase) bool {
 	return false
 }
 
+// ---------------------------------------------------------------- which charset the locale selects
+
+// LocaleCase: values of LC_ALL, LC_CTYPE and LANG ("-" = unset). POSIX: the first
+// of them that is set to a non-empty value wins; the codeset is the part after
+// '.', up to an optional '@modifier'; "C" and "POSIX" mean US-ASCII; no codeset
+// means UTF-8 (the library's documented default).
+type LocaleCase struct {
+	LCAll   string `json:"lc_all"`
+	LCCtype string `json:"lc_ctype"`
+	Lang    string `json:"lang"`
+}
+
+func expectedCharset(c LocaleCase) string {
+	loc := ""
+	for _, v := range []string{c.LCAll, c.LCCtype, c.Lang} {
+		if v != "-" && v != "" {
+			loc = v
+			break
+		}
+	}
+	if loc == "C" || loc == "POSIX" {
+		return "US-ASCII"
+	}
+	if i := strings.IndexByte(loc, '@'); i >= 0 {
+		loc = loc[:i]
+	}
+	if i := strings.IndexByte(loc, '.'); i >= 0 {
+		return loc[i+1:]
+	}
+	return "UTF-8"
+}
+
+func localeProp(c LocaleCase) error {
+	set := func(k, v string) {
+		if v == "-" {
+			os.Unsetenv(k)
+		} else {
+			os.Setenv(k, v)
+		}
+	}
+	set("LC_ALL", c.LCAll)
+	set("LC_CTYPE", c.LCCtype)
+	set("LANG", c.Lang)
+	defer func() {
+		os.Unsetenv("LC_CTYPE")
+		os.Unsetenv("LANG")
+		os.Setenv("LC_ALL", "en_US.UTF-8")
+	}()
+	base, err := terminfo.LookupTerminfo("xterm")
+	if err != nil {
+		return fmt.Errorf("harness: %v", err)
+	}
+	ti := *base
+	ti.PadChar = ""
+	tty := faketty.New(10, 2)
+	term := (*vt.Term)(nil)
+	want := expectedCharset(c)
+	if enc := tcell.GetEncoding(want); enc != nil && !strings.EqualFold(want, "UTF-8") {
+		term = vt.New(10, 2, enc, vt.Profile{})
+	} else {
+		term = vt.New(10, 2, nil, vt.Profile{})
+	}
+	tty.Sink = func(b []byte) { term.Write(b) }
+	s, err := tcell.NewTerminfoScreenFromTtyTerminfo(tty, &ti)
+	if err != nil {
+		return fmt.Errorf("harness: %v", err)
+	}
+	if err := s.Init(); err != nil {
+		return fmt.Errorf("Init with LC_ALL=%q LC_CTYPE=%q LANG=%q: %v (the locale selects %s)", c.LCAll, c.LCCtype, c.Lang, err, want)
+	}
+	defer s.Fini()
+	if got := s.CharacterSet(); !strings.EqualFold(got, want) {
+		return fmt.Errorf("LC_ALL=%q LC_CTYPE=%q LANG=%q: CharacterSet() = %q, the locale selects %q", c.LCAll, c.LCCtype, c.Lang, got, want)
+	}
+	// and the output really is in that charset: a rune outside it must not come out as raw UTF-8
+	s.SetContent(0, 0, '€', nil, tcell.StyleDefault)
+	s.SetContent(1, 0, 'Ж', nil, tcell.StyleDefault)
+	s.Show()
+	_ = tty.QueuedInput()
+	if len(term.Errors) > 0 {
+		return fmt.Errorf("LC_ALL=%q LC_CTYPE=%q LANG=%q (charset %s): output not valid in the locale's charset: %s", c.LCAll, c.LCCtype, c.Lang, want, strings.Join(term.Errors, "; "))
+	}
+	return nil
+}
+
+func localeSweep(t *testing.T) {
+	sw := pbt.NewSweep(t, "locale")
+	var rc LocaleCase
+	if pbt.ReplayCase("locale", &rc) {
+		sw.Case(true, 1, func() any { return rc }, pbt.Safe(func() error { return localeProp(rc) }), nil)
+		pbt.Note(true, 2)
+		return
+	}
+	if sw.Skip() {
+		return
+	}
+	vals := []string{"-", "", "ru_RU.KOI8-R", "en_US.UTF-8", "C", "POSIX", "de_DE.ISO8859-15@euro", "ja_JP.EUC-JP", "el_GR.ISO8859-7", "en_US"}
+	item := 0
+	for _, a := range vals {
+		for _, b := range vals {
+			for _, l := range vals {
+				item++
+				if !sw.Mine(item) {
+					continue
+				}
+				c := LocaleCase{a, b, l}
+				want := expectedCharset(c)
+				sw.Case(!strings.EqualFold(want, "UTF-8"), pbt.HashStr("loc", a, b, l), func() any { return c }, pbt.Safe(func() error { return localeProp(c) }), nil)
+			}
+		}
+	}
+	pbt.Exhaustive("LC_ALL x LC_CTYPE x LANG each in {unset, empty, ru_RU.KOI8-R, en_US.UTF-8, C, POSIX, de_DE.ISO8859-15@euro, ja_JP.EUC-JP, el_GR.ISO8859-7, en_US}: CharacterSet() and the charset of the bytes written follow the POSIX precedence")
+}
+
 func TestProp(t *testing.T) {
 	defer pbt.Recover(t)
-	pbt.Describe("repertoire: sweep of BMP runes (see exhaustive_subspaces) drawn on 64x16 pages by a real terminfo screen whose locale selects the charset; the reference terminal decodes the written bytes in the same charset (DEC special graphics via ESC ( 0 or SO/SI, SCO alternate font, the entry's own acsc pairs) and every cell must show: the rune itself if an independently instantiated encoder can encode it, else the ACS glyph the description provides for that rune, else the registered fallback, else '?', in exactly the cell's width; the stream must stay decodable (no raw UTF-8, no 0x1A); CanDisplay must agree for printable runes. fallbacks: rapid histories of RegisterRuneFallback/UnregisterRuneFallback (1- and 2-column ASCII substitutes), draws and Sync. Non-trivial = charset other than UTF-8 (fallbacks: a rune not representable in the charset drawn after a registration change).",
+	pbt.Describe("repertoire: sweep of BMP runes (see exhaustive_subspaces) drawn on 64x16 pages by a real terminfo screen whose locale selects the charset; the reference terminal decodes the written bytes in the same charset (DEC special graphics via ESC ( 0 or SO/SI, SCO alternate font, the entry's own acsc pairs) and every cell must show: the rune itself if an independently instantiated encoder can encode it, else the ACS glyph the description provides for that rune, else the registered fallback, else '?', in exactly the cell's width; the stream must stay decodable (no raw UTF-8, no 0x1A); CanDisplay must agree for printable runes. locale: which charset LC_ALL / LC_CTYPE / LANG select (POSIX precedence, empty = unset, C/POSIX = US-ASCII, no codeset = UTF-8) checked through CharacterSet() and the bytes written; fallbacks: rapid histories of RegisterRuneFallback/UnregisterRuneFallback (1- and 2-column ASCII substitutes), draws and Sync. Non-trivial = charset other than UTF-8 (fallbacks: a rune not representable in the charset drawn after a registration change).",
 		"an independently instantiated x/text encoder of the charset decides representability; the glyph shown is the decoding of those bytes",
 		"the rune a terminfo ACS name stands for is tcell's documented Rune* constant; which bytes denote it on the entry comes from my own parse of the entry's acsc",
 		"fallback strings match the rune's width (1 column for narrow, 2 for wide runes); an unencodable combining rune is elided; CanDisplay of non-printing runes is unspecified",
 		"after a registration change only full repaints (Sync) are compared: cells keep the substitute in force when they were painted")
 	sweep(t)
+	localeSweep(t)
 	pbt.Check(t, "fallbacks", pbt.Pick(4000, 40000), pbt.Spec[FbCase]{Gen: genFb, Prop: fbProp, NonTrivial: fbNonTrivial})
 }
